@@ -383,6 +383,33 @@ def s_replace(ex, st, recv, pos, kw, node, star, dstar):
     return val(st, Val.s(r))
 
 
+STRIPF = z3.Function('strip_chars', Str, Str, z3.IntSort(), Str)     # (text, character set, 0 left / 1 right / 2 both)
+
+
+def _strip(side):
+    def f(ex, st, recv, pos, kw, node, star, dstar):
+        """str.strip / lstrip / rstrip(chars): the argument is a SET of characters, not a prefix / suffix.  Kept abstract; defining facts that
+        are instantiated: the result is a contiguous part of the text (a suffix for lstrip, a prefix for rstrip); nothing to strip -> unchanged;
+        a non-empty result does not begin (lstrip) / end (rstrip) with a character of a one-character set."""
+        t = Val.sv(recv); chars = Val.sv(pos[0]) if pos else z3.StringVal(' '); r = STRIPF(t, chars, side)
+        st.assume(z3.Contains(t, r)); st.assume(z3.Length(r) <= z3.Length(t))
+        if side == 0: st.assume(z3.SuffixOf(r, t))
+        if side == 1: st.assume(z3.PrefixOf(r, t))
+        one = z3.Length(chars) == 1
+        if side in (0, 2): st.assume(z3.Implies(one, z3.Not(z3.PrefixOf(chars, r))))
+        if side in (1, 2): st.assume(z3.Implies(one, z3.Not(z3.SuffixOf(chars, r))))
+        if side == 0: st.assume(z3.Implies(z3.And(one, z3.Not(z3.PrefixOf(chars, t))), r == t))
+        if side == 1: st.assume(z3.Implies(z3.And(one, z3.Not(z3.SuffixOf(chars, t))), r == t))
+        return val(st, Val.s(r))
+    return f
+
+
+def l_now_local(ex, st, pos, kw, node, star, dstar):
+    """datetime.now(): the LOCAL wall clock -- another function of the instant than utcnow() unless the host runs in UTC (not assumed)"""
+    used('A7 datetime.now() is local time: not the UTC clock (the host time zone is not assumed to be UTC)')
+    o = st.alloc('datetime'); st.wr(o, 'instant', I(fresh('local_now', z3.IntSort()))); st.g['localnow_reads'] = st.g.get('localnow_reads', []) + [o]; return val(st, o)
+
+
 def s_split(ex, st, recv, pos, kw, node, star, dstar):
     """s.split(sep): modelled through its first element only (what the repository uses): the part before the first separator"""
     sep = Val.sv(pos[0]); s = Val.sv(recv); idx = z3.IndexOf(s, sep, 0)
@@ -410,9 +437,10 @@ def install(ex):
               'builtins.repr': b_repr, 'builtins.bool': b_bool, 'builtins.list': b_list, 'builtins.tuple': b_list, 'builtins.dict': b_dict,
               'builtins.type': b_type, 'builtins.iter': b_iter, 'builtins.hasattr': b_hasattr, 'builtins.enumerate': b_enumerate,
               'functools.reduce': l_reduce, 'random.Random': l_random_new, 'builtins.round': b_round, 'itertools.islice': l_islice, 'builtins.int': b_int, 'builtins.float': b_float, 'builtins.bytes': b_bytes, 'builtins.set': b_set, 'builtins.frozenset': b_set,
-              'time.time': l_time, 'jsonpickle.encode': l_encode_nondet, 'datetime.datetime.utcnow': l_utcnow, 'uuid.uuid1': l_uuid1,
+              'time.time': l_time, 'jsonpickle.encode': l_encode_nondet, 'datetime.datetime.utcnow': l_utcnow, 'datetime.datetime.now': l_now_local, 'uuid.uuid1': l_uuid1,
               'collections.Counter': l_counter, 'collections.OrderedDict': l_ordereddict, 'threading.local': l_threadlocal,
               'six.text_type': b_str})
+    ex.strm.update({'lstrip': _strip(0), 'rstrip': _strip(1), 'strip': _strip(2)})
     ex.strm.update({'format': s_format, 'encode': s_encode, 'startswith': s_startswith, 'endswith': s_endswith, 'replace': s_replace,
                     'split': s_split})
     from . import libobj
